@@ -48,6 +48,14 @@ NoFloatIn(v) ==
     [] OTHER -> TRUE
 
 Shorthands == { <<SQ>>, <<BQ>>, <<COMMA>>, <<COMMA, AT>> }
+\* the shorthand characters that stand for the head symbol v (C11: "the head's span covers just the shorthand characters")
+ShorthandFor(v) ==
+  IF v.k # "sym" THEN <<>>
+  ELSE CASE v.s = QuoteName("quote") -> <<SQ>>
+         [] v.s = QuoteName("quasiquote") -> <<BQ>>
+         [] v.s = QuoteName("unquote") -> <<COMMA>>
+         [] v.s = QuoteName("unquote-splicing") -> <<COMMA, AT>>
+         [] OTHER -> <<>>
 
 RECURSIVE TreeComplaints(_, _, _, _, _), KidsComplaints(_, _, _, _, _, _, _)
 
@@ -64,7 +72,7 @@ TreeComplaints(text, ro, t, par, head) ==
               r == ReadOne(slice, ro)
               short == t.kind = "list" /\ \E h \in Shorthands : StartsWith(slice, h)
           IN (IF par[1] >= 0 /\ (s < par[1] \/ e > par[2]) THEN << <<"span not contained in the parent's span", t.span>> >> ELSE <<>>)
-             \o (IF head THEN (IF slice \in Shorthands THEN <<>> ELSE << <<"head of a quote shorthand covers", slice>> >>)
+             \o (IF head THEN (IF slice \in Shorthands /\ slice = ShorthandFor(t.v) THEN <<>> ELSE << <<"head of a quote shorthand covers", slice>> >>)
                  ELSE IF r.t = "ok" /\ r.v # t.v /\ NoFloatIn(t.v) THEN << <<"covered text reads as a different datum", slice>> >>
                  ELSE IF r.t \in {"rej", "inc", "trailing"} THEN << <<"covered text is not one datum", slice, r.t>> >>
                  ELSE <<>>)
